@@ -20,6 +20,8 @@ import time
 from fractions import Fraction
 from pathlib import Path
 
+sys.set_int_max_str_digits(0)   # exact rationals of long loci have thousands of digits
+
 VERIF = Path(__file__).resolve().parent.parent
 REPO = Path(os.environ.get("MCHAP_REPO", "/repo"))
 LEAN = VERIF / "lean"
@@ -110,11 +112,14 @@ def setup_numba_cache() -> str:
     d = base / th
     d.mkdir(parents=True, exist_ok=True)
     os.utime(d)
-    # prune: keep the 3 most recently used trees
+    # prune: keep the 4 most recently used trees and anything used within the last 2 hours
+    # (several checks may run concurrently against different trees)
     try:
+        now = time.time()
         olds = sorted((p for p in base.iterdir() if p.is_dir()), key=lambda p: p.stat().st_mtime)
-        for p in olds[:-3]:
-            shutil.rmtree(p, ignore_errors=True)
+        for p in olds[:-4]:
+            if now - p.stat().st_mtime > 7200:
+                shutil.rmtree(p, ignore_errors=True)
     except OSError:
         pass
     os.environ["NUMBA_CACHE_DIR"] = str(d)
@@ -362,6 +367,24 @@ class Check:
         self.notes: list[str] = []
         self.extra: dict = {}
         self.known = [k for k in load_known() if k.get("property") == prop and k.get("status") == "open"]
+        # journal: survives a crash of the interpreter (e.g. a segfault inside jitted code under test)
+        CACHE.mkdir(parents=True, exist_ok=True)
+        self.journal = CACHE / f"journal_{prop}.jsonl"
+        try:
+            self.journal.write_text(json.dumps({"start": True, "tier": tier, "seed": seed(), "theorems": len(theorems)}) + "\n")
+        except OSError:
+            pass
+
+    def _journal(self, obj: dict):
+        try:
+            with open(self.journal, "a") as f:
+                f.write(json.dumps(obj, default=str) + "\n")
+        except OSError:
+            pass
+
+    def breadcrumb(self, what: str, case):
+        """record what is about to be executed on the implementation (read back if the interpreter dies)"""
+        self._journal({"breadcrumb": what, "case": case})
 
     # ---- coverage accounting
     def count(self, key, n=1):
@@ -389,6 +412,8 @@ class Check:
             self.build_log += "\nforbidden tokens:\n" + "\n".join(toks)
         if ok:
             self.audit_result = audit(self.module, self.theorems)
+            self._journal({"audit": {"obligations": self.audit_result["obligations"], "discharged": self.audit_result["discharged"],
+                                     "cmd": self.audit_result["cmd"]}})
             if self.tier == "thorough" and self.audit_result["ok"]:
                 r = lake("env", "leanchecker", self.module, *self.extra_modules, timeout=3000)
                 self.audit_result["cmd"] += f" && lake env leanchecker {self.module}"
@@ -417,6 +442,8 @@ class Check:
                 self.known_hits[signature]["n"] += 1
                 return
         self.violations.append({"what": what, "case": case, "signature": signature})
+        if len(self.violations) <= 5:
+            self._journal({"violation": what, "case": case, "signature": signature})
 
     def _write_replay(self, payload: dict) -> str:
         d = REPLAYS / self.prop
